@@ -320,13 +320,17 @@ Proof.
       * apply Z.geb_le in Eh. pose proof (round_add_one_spec q 0 Hq34) as Hr.
         destruct (round_add_one q 0) as [q1 d1]. destruct Hr as (Hq1 & Hd1 & Hv).
         rewrite Z.sub_0_r in Hv.
-        apply (Hfin q1 d1 true); try lia; try discriminate; [rewrite (num_digits_34 q1 Hq1); lia|].
-        rewrite Hv. assert (1 <= 10 ^ d1) by (apply pow10_ge1; lia). nia.
+        assert (P1 : 1 <= 10 ^ d1) by (apply pow10_ge1; lia).
+        apply (Hfin q1 d1 true); [cbn; lia | lia | lia | rewrite (num_digits_34 q1 Hq1); lia | | discriminate | exact H].
+        rewrite Hv. nia.
       * rewrite Z.geb_leb in Eh. apply Z.leb_gt in Eh.
-        apply (Hfin q 0 true); try lia; try discriminate. rewrite Z.pow_0_r. nia.
+        apply (Hfin q 0 true); [cbn; lia | lia | lia | lia | | discriminate | exact H].
+        rewrite Z.pow_0_r. nia.
     + (* not rounded: remainder 0, or the exponent check fails *)
       destruct (Z.eq_dec rem 0) as [Hr0|Hrn].
-      * apply (Hfin q 0 false); try lia; rewrite Z.pow_0_r; [nia | intros _; nia].
+      * apply (Hfin q 0 false); [cbn; lia | lia | lia | lia | | | exact H].
+        -- rewrite Z.pow_0_r. nia.
+        -- intros _. rewrite Z.pow_0_r. nia.
       * exfalso. apply andb_false_iff in Er. destruct Er as [Er|Er].
         { apply negb_false_iff in Er. apply Z.eqb_eq in Er. contradiction. }
         rewrite Z.geb_leb in Er. apply Z.leb_gt in Er.
@@ -483,9 +487,8 @@ Proof.
       split; [exact Hq0|]. rewrite Hmag.
       (* compare at scale dexp y: qv = qv*10^k * 10^(dexp y) *)
       assert (Hs : forall v, (inject_Z v == inject_Z (v * 10 ^ k) * q10 ^ dexp y)%Q).
-      { intro v. symmetry. replace (inject_Z v) with (inject_Z v * q10 ^ 0)%Q at 2 by (cbn; ring).
-        setoid_replace (inject_Z v)%Q with (inject_Z v * q10 ^ 0)%Q at 2 by (cbn; ring).
-        replace k with (0 - dexp y) by (subst k; lia). apply scale_int. lia. }
+      { intro v. replace k with (0 - dexp y) by (subst k; lia).
+        rewrite (scale_int v 0 (dexp y)) by lia. cbn. ring. }
       pose proof (qpow_pos (dexp y)) as Hp. split.
       + rewrite (Hs qv). apply Qmult_le_compat_r; [|apply Qlt_le_weak; exact Hp].
         rewrite <- Zle_Qle. lia.
